@@ -17,6 +17,8 @@ Hypothesis R_trans : forall a b c, R a b -> R b c -> R a c.
 Hypothesis pi_set_doc : forall s d, pi (set_doc s d) = pi s.
 Hypothesis pi_set_nseq : forall s n, pi (set_nseq s n) = pi s.
 Hypothesis pi_add_import : forall s, R (pi s) (pi (add_import s)).
+Hypothesis pi_add_cancel : forall s, R (pi s) (pi (add_cancel s)).
+Hypothesis pi_add_err : forall s, R (pi s) (pi (add_err s)).
 
 Variable fire : state -> state.
 Hypothesis fire_R : forall s, R (pi s) (pi (fire s)).
@@ -44,8 +46,8 @@ Proof.
   unfold import_attempt. intros E.
   destruct (d_cas d =? 0); [inversion E; subst; auto|].
   destruct (isdel && negb (has_revtree d)); [inversion E; subst; auto|].
-  destruct (doc_is_sg_write crc delcrc d raw); inversion E; subst; auto.
-  rewrite pi_set_nseq. auto.
+  destruct (doc_is_sg_write crc delcrc d raw); [inversion E; subst; auto|].
+  destruct (import_hlv d); inversion E; subst; rewrite pi_set_nseq; auto.
 Qed.
 
 Lemma import_cb_frame feed m s p s1 r m' :
@@ -65,7 +67,7 @@ Proof.
   destruct (upd_loop crc delcrc fire 6 _ _ _ s) as [s1 lr] eqn:EL.
   apply (upd_loop_frame _ _ (import_cb_frame feed)) in EL.
   destruct lr as [|e]; [inversion E; subst; eauto|].
-  destruct e; inversion E; subst; auto.
+  destruct e; inversion E; subst; eauto.
 Qed.
 
 Lemma odw_frame s d del s' r : odw fixed crc delcrc fire s d del = (s', r) -> R (pi s) (pi s').
@@ -84,7 +86,9 @@ Proof.
     eapply odw_frame; eauto. }
   destruct early; [inversion E; subst; auto|].
   match type of E with (match ?X with _ => _ end) = _ => destruct X end;
-    inversion E; subst; auto. rewrite pi_set_nseq. auto.
+    [|inversion E; subst; auto].
+  match type of E with (match ?X with _ => _ end) = _ => destruct X end;
+    inversion E; subst; rewrite pi_set_nseq; auto.
 Qed.
 
 Lemma meta_cb_frame m s p s1 r m' : meta_cb m s p = (s1, r, m') -> R (pi s) (pi s1).
